@@ -371,22 +371,43 @@ impl ASN1Type {
         &mut self,
         tlds: &BTreeMap<String, ToplevelDefinition>,
     ) -> bool {
+        self.link_components_of_notation_in(tlds, &mut Vec::new())
+    }
+
+    /// `expanding` holds the names of the types whose `COMPONENTS OF` notations are being
+    /// expanded on behalf of the current one (guards against circular notations).
+    fn link_components_of_notation_in(
+        &mut self,
+        tlds: &BTreeMap<String, ToplevelDefinition>,
+        expanding: &mut Vec<String>,
+    ) -> bool {
         match self {
             ASN1Type::Choice(c) => c
                 .options
                 .iter_mut()
-                .any(|o| o.ty.link_components_of_notation(tlds)),
+                .any(|o| o.ty.link_components_of_notation_in(tlds, expanding)),
             ASN1Type::Set(s) | ASN1Type::Sequence(s) => {
                 let mut member_linking = s
                     .members
                     .iter_mut()
-                    .any(|m| m.ty.link_components_of_notation(tlds));
+                    .any(|m| m.ty.link_components_of_notation_in(tlds, expanding));
                 // TODO: properly link components of in extensions
                 // TODO: link components of Class field, such as COMPONENTS OF BILATERAL.&id
-                for comp_link in &s.components_of {
-                    if let Some(ToplevelDefinition::Type(linked)) = tlds.get(comp_link) {
+                // the notations are consumed: a type without them has been expanded already
+                for comp_link in std::mem::take(&mut s.components_of) {
+                    if let Some(ToplevelDefinition::Type(linked)) = tlds.get(&comp_link) {
+                        // the referenced type may itself contain a notation that has not been
+                        // expanded yet (this depends on the order in which types are linked)
+                        let mut linked_ty = linked.ty.clone();
+                        if linked_ty.contains_components_of_notation()
+                            && !expanding.contains(&comp_link)
+                        {
+                            expanding.push(comp_link.clone());
+                            linked_ty.link_components_of_notation_in(tlds, expanding);
+                            expanding.pop();
+                        }
                         if let ASN1Type::Sequence(linked_seq) | ASN1Type::Set(linked_seq) =
-                            &linked.ty
+                            &linked_ty
                         {
                             linked_seq
                                 .members
@@ -406,9 +427,9 @@ impl ASN1Type {
                 }
                 member_linking
             }
-            ASN1Type::SequenceOf(so) | ASN1Type::SetOf(so) => {
-                so.element_type.link_components_of_notation(tlds)
-            }
+            ASN1Type::SequenceOf(so) | ASN1Type::SetOf(so) => so
+                .element_type
+                .link_components_of_notation_in(tlds, expanding),
             _ => false,
         }
     }
